@@ -10,6 +10,7 @@ import pl
 sys.path.insert(0, os.path.join(vf.VERIF, "gen"))
 import c19_findall as cf  # noqa: E402
 import c19_select_sublist as css  # noqa: E402
+import c19_copynode_diff as ccn  # noqa: E402
 
 META = {
     "id": "C19",
@@ -22,7 +23,7 @@ META = {
             "Whole findall/3, all/3 programs are judged against exhaustive world enumeration done in the harness (exact rationals)."
             " The rest of the findall machinery is modelled too (enumerate_branches, get_node_multiplicity, the max-node ordering, findall/all output lists): branches are equivalent to the node (acyclic graphs, and cyclic graphs under any stable model), and the result lists partition the assignments in the explicit sort_mx order; tied by recording the real builtins' calls.",
     "note": "Trusted: Coq kernel+vm_compute; _select_sublist and BaseFormula.negate are TRANSLATED from the source on every run (gen/c19_select_sublist.py, fail-closed; readings of the Python constructs in SelectPrelude.v) and the translation is proved equal to the hand model (C19_generated_is_model), both also sampled against the real generator; the harness world enumerator for propositional findall programs; "
-            "hand model of enumerate_branches/get_node_multiplicity/_builtin_findall_base/_builtin_all (sampled correspondence on recorded calls); target node numbering abstracted (pn, cn) under the builder-correctness hypothesis checked per call; "
+            "hand model of enumerate_branches/get_node_multiplicity/_builtin_findall_base/_builtin_all (sampled correspondence on recorded calls); target node numbering abstracted (pn, cn) under the builder-correctness hypothesis checked per call in Props.v, concrete in PropsExtra.v: hand model of copy_node + add_and threaded through the real target (ModelCopyNode.findall_concrete, on the C09 builder model), tied on every recorded findall/3 call without AD atoms by structural equality of the final target node list and the outputs; "
             "solution ORDER: the model fixes 'stable sort by mx'; that this is Prolog order is NOT proved (known findings).",
 }
 
@@ -248,6 +249,11 @@ def _capture(src):
     return cf.capture(src, timeout=30)
 
 
+def _capture_cn(src):
+    # cf.capture + the length of the real target before/after every findall/3 call (tie of ModelCopyNode)
+    return ccn.capture(src, timeout=30)
+
+
 def coq_graph(nodes):
     out = []
     for i, n in enumerate(nodes):
@@ -405,8 +411,9 @@ def run_machinery(ctx):
         r = ctx.rng.random()
         progs.append(cf.gen_relational_program(ctx.rng) if r < 0.3 else cf.gen_cyclic_program(ctx.rng) if r < 0.5
                      else cf.gen_rich_program(ctx.rng))
-    caps = pl.pmap(_capture, [p[0] for p in progs], jobs=8)
+    caps = pl.pmap(_capture_cn, [p[0] for p in progs], jobs=8)
     cases, metas, defs = [], [], []
+    cn_cases, cn_metas, cn_cap = [], [], ctx.n(150, 3000)
     for (src, kind), (st, err, calls) in zip(progs, caps):
         if st == "err":
             if err == "Timeout":
@@ -417,6 +424,20 @@ def run_machinery(ctx):
         for ci, c in enumerate(calls):
             ok = judge_call(ctx, src, ci, c, cases, metas, defs)
             ctx.count("machinery_%s_%s" % (c["kind"], "judged" if ok is True else "not_judged"))
+            # tie of ModelCopyNode.findall_concrete: only calls the Python judge is satisfied with
+            if c["kind"] == "findall" and ok is True:
+                if len(cn_cases) >= cn_cap:
+                    ctx.count("copynode_skipped:case_cap_reached")
+                else:
+                    term, why = ccn.coq_case(c, src)
+                    if term is None:
+                        ctx.count("copynode_skipped:" + why)
+                    else:
+                        cn_cases.append(term)
+                        cn_metas.append(src)
+                        ctx.count("copynode_case")
+                        for f in ccn.features(c):
+                            ctx.count("copynode_case_" + f)
             nontrivial = ok is True and len(c.get("lst", [])) >= 3 and len(c.get("out", [])) >= 3
             ctx.case(("call", src, ci), nontrivial,
                      sample={"program": src, "results": c.get("results"), "branches": [e[1] for e in c.get("enum", [])],
@@ -453,6 +474,18 @@ def run_machinery(ctx):
     ctx.cov["findall_machinery_model_vs_impl_agree"] = len(cases) - len(bad)
     for i in bad[:5]:
         ctx.broken.append("correspondence:ModelBranches.%s vs /repo on program %r" % metas[i])
+    # ModelCopyNode.findall_concrete started from the real target as it was before the call must rebuild
+    # the identical final node list of the target and the identical outputs (lists, keys, order)
+    try:
+        bad_cn = ctx.coq_failing(ccn.HEADER, cn_cases, name="cn", shard=50, jobs=4) if cn_cases else []
+    except RuntimeError as e:
+        ctx.broken.append("correspondence:ModelCopyNode does not evaluate")
+        ctx.notes.append(str(e))
+        return
+    ctx.cov["findall_copynode_model_vs_impl_cases"] = len(cn_cases)
+    ctx.cov["findall_copynode_model_vs_impl_agree"] = len(cn_cases) - len(bad_cn)
+    for i in bad_cn[:5]:
+        ctx.broken.append("correspondence:ModelCopyNode.findall_concrete (target node list / outputs) vs /repo on program %r" % (cn_metas[i],))
 
 
 def parse_list(key):
@@ -487,6 +520,8 @@ def run(ctx):
                         "hand and generated model additionally tied by sampled differential runs",
                         "hand model of enumerate_branches / get_node_multiplicity / _builtin_findall_base / _builtin_all tied on recorded builtin calls; "
                         "target keys (copy_node, add_and) abstracted, their builder-correctness hypothesis judged per call",
+                        "ModelCopyNode (copy_node/add_and into the real target): hand model tied on recorded findall/3 calls (identical target node list and outputs); "
+                        "calls of programs with an annotated disjunction are not compared (atom_info not reconstructed); C19_findall_lists_partition_concrete needs a topologically ordered target before the call",
                         "findall order = stable sort by mx (the code's heuristic), not Prolog order",
                         "harness-side world enumerator (Fractions) is the judge for whole programs"]
     try:
